@@ -218,6 +218,13 @@ class Shadow:
                 except Exception:  # noqa: BLE001
                     val[n.sid] = None
             for n in p.nodes:
+                if n.caching and val[n.sid] is None and not n.obj.outdated and n.kind not in ("input", "seed", "group"):
+                    # its function (or one upstream) raises on the inputs the model now holds: it cannot have been
+                    # recomputed, so it cannot be up to date
+                    self.res.violation("stale-after-failed-update", f"after {op}: node {self.nm(n.sid)} reports up to date (value "
+                                       f"{np.asarray(n.obj.value).tolist()}) although it cannot be evaluated on the inputs the model "
+                                       "now holds (a node function raised during the sweep)", self.w())
+                    return
                 if n.kind in ("input", "seed", "group") or n.obj.outdated or val[n.sid] is None:
                     continue
                 got = n.obj.value
